@@ -261,8 +261,13 @@ func c12MkMixedOp(r *rand.Rand, kind, name string, defined []string) c12Op {
 			op.Var = sp(vname)
 		}
 		its := []c12VoR{}
+		bools := r.Intn(4) == 0 // items that are boolean texts: a condition may read the variable
 		for i, n := 0, r.Intn(3); i < n; i++ {
-			its = append(its, c12VoR{Val: fmt.Sprintf("i%d", i)})
+			if bools {
+				its = append(its, c12VoR{Val: pick(r, []string{"true", "false", "1"})})
+			} else {
+				its = append(its, c12VoR{Val: fmt.Sprintf("i%d", i)})
+			}
 		}
 		op.Items = &its
 		op.Body = &c12Act{Name: "fb_" + name, Ops: []c12Op{{K: "log", Msg: "F-" + name + "-{{ ." + vname + " }}"}}}
@@ -283,7 +288,48 @@ func c12MkMixedOp(r *rand.Rand, kind, name string, defined []string) c12Op {
 	return c12MkOp(kind, name)
 }
 
+// c12ScopedRefs: the field chains under which the node's own iteration / call operations bind their temporaries —
+// the forEach variable, a member of the call's arguments.  Scoped: there while the body runs, gone afterwards.
+func c12ScopedRefs(a *c12Act) []string {
+	var out []string
+	for i := range a.Ops {
+		switch o := &a.Ops[i]; o.K {
+		case "forEach":
+			out = append(out, c14VarName(o.Var))
+		case "call":
+			if o.ArgsPath != nil {
+				out = append(out, *o.ArgsPath+".x")
+			} else {
+				out = append(out, "args.x")
+			}
+		}
+	}
+	return out
+}
+
+// c12ReadScoped: the node's log / abort message reads one of the given temporaries through a template (Log and
+// Abort are declared after Call and ForEach: by then the temporaries of the node's own operations are gone, and so
+// are those of the nodes that ran before — what the message shows is what the data document holds at THAT moment)
+func c12ReadScoped(r *rand.Rand, a *c12Act, refs []string, kinds ...string) {
+	if len(refs) == 0 {
+		return
+	}
+	for i := range a.Ops {
+		for _, k := range kinds {
+			if a.Ops[i].K == k {
+				a.Ops[i].Msg = strings.ToUpper(k[:1]) + "-" + a.Name + "-{{ ." + pick(r, refs) + " }}"
+			}
+		}
+	}
+}
+
 func c12MixedTree(r *rand.Rand, name string, depth, maxDepth, maxFan int, defined *[]string) c12Act {
+	var scoped []string
+	return c12MixedTreeS(r, name, depth, maxDepth, maxFan, defined, &scoped)
+}
+
+// scoped = the temporaries (c12ScopedRefs) of the nodes generated so far
+func c12MixedTreeS(r *rand.Rand, name string, depth, maxDepth, maxFan int, defined *[]string, scoped *[]string) c12Act {
 	a := c12Act{Name: name, Ops: []c12Op{}, Children: []c12Act{}}
 	var kinds []string
 	for _, k := range c12MixedKinds {
@@ -310,11 +356,23 @@ func c12MixedTree(r *rand.Rand, name string, depth, maxDepth, maxFan int, define
 	case x < 3:
 		a.When = sp(pick(r, []string{"true", "{{ .flagT }}", " 1 "}))
 	}
+	// TEMPORARIES READ FROM OUTSIDE THEIR SCOPE: a message of this node reads the variable / the arguments of the
+	// node's own forEach / call (gone by the time Log and Abort run) or of a node generated earlier; now and then
+	// a condition does (no value there: no boolean — the action fails)
+	*scoped = append(*scoped, c12ScopedRefs(&a)...)
+	if own := c12ScopedRefs(&a); len(own) > 0 && r.Intn(2) == 0 {
+		c12ReadScoped(r, &a, own, "log", "abort")
+	} else if len(*scoped) > 0 && r.Intn(4) == 0 {
+		c12ReadScoped(r, &a, *scoped, pick(r, []string{"log", "abort"}))
+	}
+	if len(*scoped) > 0 && a.When == nil && r.Intn(12) == 0 {
+		a.When = sp("{{ ." + pick(r, *scoped) + " }}")
+	}
 	if depth < maxDepth {
 		n := r.Intn(maxFan + 1)
 		orders := r.Perm(2*maxFan + 1)
 		for i := 0; i < n; i++ {
-			ch := c12MixedTree(r, fmt.Sprintf("%s%d", name, i), depth+1, maxDepth, maxFan, defined)
+			ch := c12MixedTreeS(r, fmt.Sprintf("%s%d", name, i), depth+1, maxDepth, maxFan, defined, scoped)
 			ch.Order = orders[i] - maxFan
 			a.Children = append(a.Children, ch)
 		}
@@ -336,6 +394,22 @@ func c12MixedPairs(r *rand.Rand) []c12Case {
 			second.Ops = []c12Op{c12MkMixedOp(r, c12MixedKinds[j], "b", []string{"d_a"}), c12MkMixedOp(r, c12MixedKinds[i], "b", []string{"d_a"})}
 			root := c12Act{Name: "r", Ops: []c12Op{}, Children: []c12Act{second, first}}
 			out = append(out, c12Case{Data: c12Data(), Root: root})
+			if own := c12ScopedRefs(&second); len(own) > 0 {
+				// the same pair, the node's message (its own, or a later sibling's) reading the temporary of the node's
+				// forEach / call: gone by then
+				var cp c12Act
+				b, _ := json.Marshal(root)
+				_ = json.Unmarshal(b, &cp)
+				sec := &cp.Children[0]
+				for _, o := range sec.Ops {
+					if o.K == "forEach" && len(*o.Items) == 0 {
+						*o.Items = append(*o.Items, c12VoR{Val: "i0"}, c12VoR{Val: "i1"})
+					}
+				}
+				c12ReadScoped(r, sec, own, "log", "abort")
+				cp.Children = append(cp.Children, c12Act{Name: "c", Order: 3, Ops: []c12Op{{K: "log", Msg: "L-c-{{ ." + own[0] + " }}"}}, Children: []c12Act{}})
+				out = append(out, c12Case{Data: c12Data(), Root: cp})
+			}
 		}
 	}
 	return out
